@@ -85,6 +85,8 @@ OwnerOf(cfg, obs, par, u) ==
        ELSE IF obs[r].fr \in SinkNames(cfg) THEN obs[r].fr
        ELSE IF obs[r].to \in SinkNames(cfg) THEN obs[r].to
        ELSE IF obs[r].fr # "S" /\ obs[r].fr # u THEN OwnerOf(cfg, obs, par, obs[r].fr)
+       \* the outermost call is the Subscribe of an earlier instance made during "attach"
+       ELSE IF obs[r].fr = "S" /\ obs[r].to # u /\ obs[r].t = "Sub" THEN OwnerOf(cfg, obs, par, obs[r].to)
        ELSE ""
 
 \* ---- sink / upstream status at a position ------------------------------------------------------
@@ -369,6 +371,313 @@ C07(cfg, obs) ==
     : u \in US}
 
 -----------------------------------------------------------------------------
+\* helpers for the operator-specific properties
+NMem(cfg) == Len(cfg.nodes[cfg.root].ups)
+MPid(cfg, m) == cfg.nodes[cfg.nodes[cfg.root].ups[m]].pid
+PidOfU(obs, u) == LET s == SubIdx(obs, u) IN IF s = 0 THEN 0 ELSE obs[s].v
+Owners(cfg, obs, nst) == [u \in UNames(cfg, obs) |-> OwnerOf(cfg, obs, nst.par, u)]
+\* the instance of member m in K's subscription ("" if that member was never subscribed)
+MemInst(cfg, obs, mine, m) ==
+  LET c == {u \in mine : PidOfU(obs, u) = MPid(cfg, m)} IN
+  IF c = {} THEN "" ELSE CHOOSE u \in c : \A w \in c : SubIdx(obs, u) <= SubIdx(obs, w)
+UActive(obs, u, i) == UGreetedBefore(obs, u, i) /\ ~USelfEndedBefore(obs, u, i) /\ ~UStoppedBefore(obs, u, i)
+
+\* relay of member data to the sink: each member datum that arrives while the output is live is
+\* delivered exactly once, unchanged, directly inside the member's own delivery; nothing else is
+RelayViol(prop, cfg, obs, nst, mine, K) ==
+  UNION {
+    LET direct == {b \in Calls(obs) : ToC(obs, b, K) /\ obs[b].t = "D" /\ nst.par[b] = j} IN
+    (IF direct = {} THEN {W(prop, "data_lost", j, K, cfg, "")} ELSE {})
+    \cup (IF Cardinality(direct) > 1 THEN {W(prop, "data_dup", j, K, cfg, "")} ELSE {})
+    \cup {W(prop, "data_changed", b, K, cfg, "") : b \in {b \in direct : obs[b].v # obs[j].v}}
+    : j \in {j \in Calls(obs) : obs[j].fr \in mine /\ obs[j].to = "S" /\ obs[j].t = "D"
+                /\ LiveAt(obs, K, j) /\ nst.ret[j] <= Len(obs)}}
+  \cup
+  {W(prop, "data_foreign", b, K, cfg, "") :
+     b \in {b \in Calls(obs) : ToC(obs, b, K) /\ obs[b].t = "D"
+              /\ ~(nst.par[b] # 0 /\ obs[nst.par[b]].fr \in mine /\ obs[nst.par[b]].t = "D")}}
+
+\* every member still running when the sink's Pull returns (the output still being live) was reached
+PullFanout(prop, cfg, obs, nst, mine, K) ==
+  UNION {
+    (IF OverBefore(obs, K, nst.ret[a]) THEN {} ELSE
+     {W(prop, "pull_fanout", a, u, cfg, "") :
+        u \in {u \in mine : UGreetedBefore(obs, u, a) /\ ~USelfEndedBefore(obs, u, nst.ret[a])
+                 /\ ~UStoppedBefore(obs, u, nst.ret[a])
+                 /\ ~\E b \in a..nst.ret[a] : ToC(obs, b, u) /\ obs[b].t = "P" /\ InsideP(nst.par, b, a)}})
+    : a \in {a \in Calls(obs) : FromC(obs, a, K) /\ obs[a].t = "P" /\ LiveAt(obs, K, a)
+                /\ nst.ret[a] <= Len(obs)}}
+
+-----------------------------------------------------------------------------
+\* C08 merge!
+C08(cfg, obs) ==
+  IF RootKind(cfg) # "merge" THEN {} ELSE
+  LET nst == Nest(obs)
+      own == Owners(cfg, obs, nst)
+      n == NMem(cfg)
+  IN
+  UNION {
+    LET mine == {u \in DOMAIN own : own[u] = K}
+        greets == {i \in Calls(obs) : obs[i].fr \in mine /\ obs[i].to = "S" /\ obs[i].t = "H"}
+        kH == {i \in Calls(obs) : ToC(obs, i, K) /\ obs[i].t = "H"}
+        ends == {j \in Calls(obs) : obs[j].fr \in mine /\ obs[j].to = "S" /\ obs[j].t = "T"}
+    IN
+    \* greets the sink when the first member greets
+    (IF greets = {} THEN {} ELSE
+     LET h == Min(greets) IN
+     (IF nst.ret[h] <= Len(obs) /\ ~\E b \in kH : InsideP(nst.par, b, h)
+      THEN {W("C08", "greet_not_at_first", h, K, cfg, "")} ELSE {})
+     \cup {W("C08", "greet_not_at_first", b, K, cfg, "") : b \in {b \in kH : ~InsideP(nst.par, b, h)}})
+    \cup RelayViol("C08", cfg, obs, nst, mine, K)
+    \cup PullFanout("C08", cfg, obs, nst, mine, K)
+    \cup
+    \* completes exactly once, when the last member has completed
+    {W("C08", "completion_early", c, K, cfg, "") :
+       c \in {c \in Calls(obs) : ToC(obs, c, K) /\ obs[c].t = "T"
+                /\ ~\E j \in ends : InsideP(nst.par, c, j) /\ Cardinality({e \in ends : e <= j}) = n}}
+    \cup
+    {W("C08", "completion_missing", j, K, cfg, "") :
+       j \in {j \in ends : Cardinality({e \in ends : e <= j}) = n /\ LiveAt(obs, K, j)
+                /\ nst.ret[j] <= Len(obs)
+                /\ ~\E c \in j..nst.ret[j] : ToC(obs, c, K) /\ obs[c].t = "T" /\ InsideP(nst.par, c, j)}}
+    \cup
+    \* a member that greets after the output is over is disposed at once
+    UNION {
+      (IF ~\E b \in h..nst.ret[h] : ToC(obs, b, obs[h].fr) /\ IsEndT(obs[b].t) /\ InsideP(nst.par, b, h)
+       THEN {W("C08", "late_member_not_disposed", h, obs[h].fr, cfg, "")} ELSE {})
+      \cup
+      {W("C08", "late_member_reaches_sink", b, K, cfg, "") :
+         b \in {b \in h..nst.ret[h] : ToC(obs, b, K) /\ InsideP(nst.par, b, h)}}
+      : h \in {h \in greets : OverBefore(obs, K, h) /\ nst.ret[h] <= Len(obs)}}
+    : K \in SinkNames(cfg)}
+
+-----------------------------------------------------------------------------
+\* C09 concat!
+C09(cfg, obs) ==
+  IF RootKind(cfg) # "concat" THEN {} ELSE
+  LET nst == Nest(obs)
+      own == Owners(cfg, obs, nst)
+      n == NMem(cfg)
+  IN
+  UNION {
+    LET mine == {u \in DOMAIN own : own[u] = K}
+        um(m) == MemInst(cfg, obs, mine, m)
+        tcall(u) == {j \in Calls(obs) : FromC(obs, j, u) /\ obs[j].t = "T"}
+    IN
+    \* member k+1 is subscribed only from inside member k's completion
+    UNION {
+      (IF um(m) = "" THEN {} ELSE
+       IF um(m - 1) = "" \/ ~\E j \in tcall(um(m - 1)) : InsideP(nst.par, SubIdx(obs, um(m)), j)
+       THEN {W("C09", "eager_subscribe", SubIdx(obs, um(m)), um(m), cfg, "")} ELSE {})
+      \cup
+      \* a Pull that is being answered with the previous member's end is re-issued to the next member
+      (IF um(m) = "" \/ um(m - 1) = "" THEN {} ELSE
+       {W("C09", "pull_not_carried", h, um(m), cfg, "") :
+          h \in {h \in Calls(obs) : FromC(obs, h, um(m)) /\ obs[h].t = "H" /\ LiveAt(obs, K, h)
+                   /\ nst.ret[h] <= Len(obs)
+                   /\ (\E a \in Calls(obs) : FromC(obs, a, K) /\ obs[a].t = "P" /\ InsideP(nst.par, h, a)
+                          /\ \E j \in tcall(um(m - 1)) : InsideP(nst.par, j, a) /\ InsideP(nst.par, h, j))
+                   /\ ~\E b \in h..nst.ret[h] : ToC(obs, b, um(m)) /\ obs[b].t = "P" /\ InsideP(nst.par, b, h)}})
+      : m \in 2..n}
+    \cup RelayViol("C09", cfg, obs, nst, mine, K)
+    \cup
+    \* the sink completes after the last member, and only then
+    {W("C09", "completion_early", c, K, cfg, "") :
+       c \in {c \in Calls(obs) : ToC(obs, c, K) /\ obs[c].t = "T"
+                /\ ~(um(n) # "" /\ \E j \in tcall(um(n)) : InsideP(nst.par, c, j))}}
+    \cup
+    (IF um(n) = "" THEN {} ELSE
+     {W("C09", "completion_missing", j, K, cfg, "") :
+        j \in {j \in tcall(um(n)) : LiveAt(obs, K, j) /\ nst.ret[j] <= Len(obs)
+                 /\ ~\E c \in j..nst.ret[j] : ToC(obs, c, K) /\ obs[c].t = "T" /\ InsideP(nst.par, c, j)}})
+    \cup
+    \* after an error or a disposal no later member is ever subscribed
+    {W("C09", "subscribe_after_over", b, obs[b].to, cfg, "") :
+       b \in {b \in Calls(obs) : obs[b].t = "Sub" /\ obs[b].to \in mine /\ OverBefore(obs, K, b)}}
+    : K \in SinkNames(cfg)}
+
+-----------------------------------------------------------------------------
+\* C10 combine!
+C10(cfg, obs) ==
+  IF RootKind(cfg) # "combine" THEN {} ELSE
+  LET nst == Nest(obs)
+      own == Owners(cfg, obs, nst)
+      n == NMem(cfg)
+  IN
+  UNION {
+    LET mine == {u \in DOMAIN own : own[u] = K}
+        um(m) == MemInst(cfg, obs, mine, m)
+        greets == {i \in Calls(obs) : obs[i].fr \in mine /\ obs[i].to = "S" /\ obs[i].t = "H"}
+        kH == {i \in Calls(obs) : ToC(obs, i, K) /\ obs[i].t = "H"}
+        dataIn == {j \in Calls(obs) : obs[j].fr \in mine /\ obs[j].to = "S" /\ obs[j].t = "D"}
+        ends == {j \in Calls(obs) : obs[j].fr \in mine /\ obs[j].to = "S" /\ IsEndT(obs[j].t)}
+        lastOf(j, m) == {i \in dataIn : i <= j /\ obs[i].fr = um(m)}
+        defined(j) == \A m \in 1..n : um(m) # "" /\ lastOf(j, m) # {}
+        tuple(j) == [m \in 1..n |-> obs[Max(lastOf(j, m))].v]
+    IN
+    \* greets the sink once all members have greeted (inside the last member greeting)
+    {W("C10", "greet_early", b, K, cfg, "") :
+       b \in {b \in kH : Cardinality({h \in greets : h < b}) < n}}
+    \cup
+    (IF Cardinality(greets) < n THEN {} ELSE
+     LET hl == CHOOSE h \in greets : Cardinality({g \in greets : g <= h}) = n IN
+     IF nst.ret[hl] <= Len(obs) /\ ~\E b \in kH : InsideP(nst.par, b, hl)
+     THEN {W("C10", "greet_late", hl, K, cfg, "")} ELSE {})
+    \cup
+    \* exactly one tuple per member datum once every member has a value, none before
+    UNION {
+      LET direct == {b \in Calls(obs) : ToC(obs, b, K) /\ obs[b].t = "D" /\ nst.par[b] = j} IN
+      IF defined(j)
+      THEN (IF direct = {} THEN {W("C10", "tuple_missing", j, K, cfg, "")} ELSE {})
+           \cup (IF Cardinality(direct) > 1 THEN {W("C10", "tuple_dup", j, K, cfg, "")} ELSE {})
+           \cup {W("C10", "tuple_wrong", b, K, cfg, "") : b \in {b \in direct : obs[b].v # tuple(j)}}
+      ELSE {W("C10", "tuple_early", b, K, cfg, "") : b \in direct}
+      : j \in {j \in dataIn : LiveAt(obs, K, j) /\ nst.ret[j] <= Len(obs)}}
+    \cup
+    {W("C10", "tuple_foreign", b, K, cfg, "") :
+       b \in {b \in Calls(obs) : ToC(obs, b, K) /\ obs[b].t = "D"
+                /\ ~(nst.par[b] # 0 /\ nst.par[b] \in dataIn)}}
+    \cup
+    \* completion: not before every member has ended; exactly once when all completed normally
+    {W("C10", "completion_early", c, K, cfg, "") :
+       c \in {c \in Calls(obs) : ToC(obs, c, K) /\ obs[c].t = "T"
+                /\ Cardinality({e \in ends : e <= c}) < n}}
+    \cup
+    (IF Cardinality(ends) < n \/ \E e \in ends : obs[e].t = "E" THEN {} ELSE
+     LET jl == CHOOSE j \in ends : Cardinality({e \in ends : e <= j}) = n IN
+     IF LiveAt(obs, K, jl) /\ nst.ret[jl] <= Len(obs)
+        /\ Cardinality({c \in jl..nst.ret[jl] : ToC(obs, c, K) /\ obs[c].t = "T" /\ InsideP(nst.par, c, jl)}) # 1
+     THEN {W("C10", "completion_missing", jl, K, cfg, "")} ELSE {})
+    \cup PullFanout("C10", cfg, obs, nst, mine, K)
+    : K \in SinkNames(cfg)}
+
+-----------------------------------------------------------------------------
+\* C11 flatten (root flatten over one outer puppet whose data are inner puppets)
+C11(cfg, obs) ==
+  IF RootKind(cfg) # "flatten" THEN {} ELSE
+  LET nst == Nest(obs)
+      own == Owners(cfg, obs, nst)
+      opid == MPid(cfg, 1)
+  IN
+  UNION {
+    LET mine == {u \in DOMAIN own : own[u] = K}
+        outs == {u \in mine : PidOfU(obs, u) = opid}
+        inners == mine \ outs
+        \* the inner subscribed most recently before position i ("" if none)
+        current(i) == LET c == {x \in inners : SubIdx(obs, x) < i} IN
+                      IF c = {} THEN "" ELSE CHOOSE x \in c : \A y \in c : SubIdx(obs, y) <= SubIdx(obs, x)
+        oEnded(i) == \E o \in outs : \E a \in 1..(i - 1) : FromC(obs, a, o) /\ obs[a].t = "T"
+    IN
+    UNION {
+      \* every inner source the outer emits is subscribed
+      {W("C11", "inner_not_subscribed", j, K, cfg, "") :
+         j \in {j \in Calls(obs) : FromC(obs, j, o) /\ obs[j].t = "D" /\ LiveAt(obs, K, j)
+                  /\ nst.ret[j] <= Len(obs)
+                  /\ ~\E s \in j..nst.ret[j] : IsCall(obs[s]) /\ obs[s].t = "Sub" /\ obs[s].v = obs[j].v
+                                               /\ nst.par[s] = j}}
+      \cup
+      \* when a newer inner arrives the previous one, if still active, is disposed exactly once
+      {W("C11", "switch_dispose", j, current(j), cfg, "") :
+         j \in {j \in Calls(obs) : FromC(obs, j, o) /\ obs[j].t = "D" /\ nst.ret[j] <= Len(obs)
+                  /\ current(j) # "" /\ UActive(obs, current(j), j)
+                  /\ Cardinality({b \in j..nst.ret[j] : ToC(obs, b, current(j)) /\ IsEndT(obs[b].t)
+                                                        /\ nst.par[b] = j}) # 1}}
+      \cup
+      \* completion exactly when the outer completes with no active inner ...
+      {W("C11", "completion_missing", j, K, cfg, "") :
+         j \in {j \in Calls(obs) : FromC(obs, j, o) /\ obs[j].t = "T" /\ LiveAt(obs, K, j)
+                  /\ nst.ret[j] <= Len(obs)
+                  /\ (current(j) = "" \/ ~UActive(obs, current(j), j))
+                  /\ ~\E c \in j..nst.ret[j] : ToC(obs, c, K) /\ obs[c].t = "T" /\ nst.par[c] = j}}
+      : o \in outs}
+    \cup
+    UNION {
+      \* each inner is pulled exactly once on greeting
+      {W("C11", "inner_not_pulled_once", h, x, cfg, "") :
+         h \in {h \in Calls(obs) : FromC(obs, h, x) /\ obs[h].t = "H" /\ nst.ret[h] <= Len(obs)
+                  /\ Cardinality({b \in h..nst.ret[h] : ToC(obs, b, x) /\ obs[b].t = "P" /\ nst.par[b] = h}) # 1}}
+      \cup
+      \* ... or when the current inner completes after the outer has completed
+      {W("C11", "completion_missing", j, K, cfg, "") :
+         j \in {j \in Calls(obs) : FromC(obs, j, x) /\ obs[j].t = "T" /\ LiveAt(obs, K, j)
+                  /\ nst.ret[j] <= Len(obs) /\ x = current(j) /\ oEnded(j)
+                  /\ ~\E c \in j..nst.ret[j] : ToC(obs, c, K) /\ obs[c].t = "T" /\ nst.par[c] = j}}
+      : x \in inners}
+    \cup
+    \* only the latest inner speaks
+    {W("C11", "stale_data", b, K, cfg, "") :
+       b \in {b \in Calls(obs) : ToC(obs, b, K) /\ obs[b].t = "D"
+                /\ ~(nst.par[b] # 0 /\ obs[nst.par[b]].t = "D" /\ obs[nst.par[b]].fr \in inners
+                     /\ obs[nst.par[b]].fr = current(b) /\ obs[nst.par[b]].v = obs[b].v)}}
+    \cup
+    {W("C11", "completion_wrong", c, K, cfg, "") :
+       c \in {c \in Calls(obs) : ToC(obs, c, K) /\ obs[c].t = "T"
+                /\ ~(nst.par[c] # 0 /\ obs[nst.par[c]].t = "T"
+                     /\ LET j == nst.par[c] IN
+                        \/ (obs[j].fr \in outs /\ (current(j) = "" \/ ~UActive(obs, current(j), j)))
+                        \/ (obs[j].fr \in inners /\ obs[j].fr = current(j) /\ oEnded(j)))}}
+    \cup
+    \* a Pull goes to the active inner if there is one, else to the outer
+    UNION {
+      LET x == current(a)
+          toX == {b \in a..nst.ret[a] : x # "" /\ ToC(obs, b, x) /\ obs[b].t = "P" /\ nst.par[b] = a}
+          toO == {b \in a..nst.ret[a] : obs[b].to \in outs /\ IsCall(obs[b]) /\ obs[b].t = "P" /\ nst.par[b] = a}
+      IN IF x # "" /\ UActive(obs, x, a)
+         THEN (IF toX = {} THEN {W("C11", "pull_routing", a, x, cfg, "inner")} ELSE {})
+              \cup {W("C11", "pull_routing", b, obs[b].to, cfg, "outer_while_inner_active") : b \in toO}
+         ELSE IF \E o \in outs : UActive(obs, o, a)
+              THEN (IF toO = {} THEN {W("C11", "pull_routing", a, K, cfg, "outer")} ELSE {})
+              ELSE {}
+      : a \in {a \in Calls(obs) : FromC(obs, a, K) /\ obs[a].t = "P" /\ LiveAt(obs, K, a)
+                 /\ nst.ret[a] <= Len(obs)}}
+    : K \in SinkNames(cfg)}
+
+-----------------------------------------------------------------------------
+\* C12 share
+C12(cfg, obs) ==
+  IF ~IsShare(cfg) THEN {} ELSE
+  LET nst == Nest(obs)
+      US == UNames(cfg, obs)
+      KS == SinkNames(cfg)
+      alive(u, i) == SubIdx(obs, u) < i /\ ~USelfEndedBefore(obs, u, i) /\ ~UStoppedBefore(obs, u, i)
+      attached(K, i) == GreetedBefore(obs, K, i) /\ ~OverBefore(obs, K, i)
+      multi == Len(cfg.sinks) >= 2
+      ucalls == {j \in Calls(obs) : obs[j].fr \in US /\ obs[j].to = "S"}
+      \* scope of the property for 2+ sinks: the source does not emit from inside a delivery
+      plain(j) == ~multi \/ (~(\E i \in ucalls : InsideP(nst.par, j, i)) /\ ~(\E i \in ucalls : InsideP(nst.par, i, j)))
+  IN
+  \* at most one upstream subscription is alive
+  {W("C12", "second_upstream", s, obs[s].to, cfg, "") :
+     s \in {s \in Calls(obs) : obs[s].t = "Sub" /\ \E u \in US : alive(u, s)}}
+  \cup
+  \* it is started when a sink attaches while none is alive (first attach, after the end, after all left)
+  {W("C12", "not_started", t, obs[t].to, cfg, "") :
+     t \in {t \in Tops(obs) : obs[t].t = "attach" /\ ~Panicked(obs) /\ ~(\E u \in US : alive(u, t))
+              /\ ~\E s \in t..StepEnd(obs, t) : IsCall(obs[s]) /\ obs[s].t = "Sub"}}
+  \cup
+  \* every attached sink receives every datum and the termination emitted while it is attached
+  UNION {
+    {W("C12", IF obs[j].t = "D" THEN "missed_datum" ELSE "missed_end", j, K, cfg, "") :
+       K \in {K \in KS : attached(K, j) /\ ~DisposedBefore(obs, K, nst.ret[j])
+                /\ ~\E b \in j..nst.ret[j] : ToC(obs, b, K) /\ obs[b].t = obs[j].t /\ obs[b].v = obs[j].v
+                                             /\ nst.par[b] = j}}
+    : j \in {j \in ucalls : obs[j].t \in {"D", "T", "E"} /\ nst.ret[j] <= Len(obs) /\ plain(j)}}
+  \cup
+  \* upstream is disposed exactly when the last attached sink detaches
+  UNION {
+    LET K == obs[a].fr
+        others == {Q \in KS \ {K} : attached(Q, a)}
+        stops == {b \in a..nst.ret[a] : obs[b].to \in US /\ IsCall(obs[b]) /\ IsEndT(obs[b].t)
+                    /\ InsideP(nst.par, b, a)}
+    IN IF others = {}
+       THEN (IF (\E u \in US : alive(u, a) /\ UGreetedBefore(obs, u, a)) /\ stops = {}
+             THEN {W("C12", "upstream_not_disposed", a, K, cfg, "")} ELSE {})
+       ELSE {W("C12", "upstream_disposed_early", b, K, cfg, "") : b \in stops}
+    : a \in {a \in Calls(obs) : obs[a].fr \in KS /\ obs[a].to = "S" /\ IsEndT(obs[a].t)
+               /\ LiveAt(obs, obs[a].fr, a) /\ nst.ret[a] <= Len(obs)
+               /\ (~multi \/ ~\E i \in ucalls : InsideP(nst.par, a, i) /\ \E i2 \in ucalls : InsideP(nst.par, i2, i))}}
+
+-----------------------------------------------------------------------------
 \* dispatcher used by the model configurations (MC_*) and by TraceProps
 PropsOf(p, cfg, obs) ==
   CASE p = "C01" -> C01(cfg, obs)
@@ -377,6 +686,11 @@ PropsOf(p, cfg, obs) ==
     [] p = "C04" -> C04(cfg, obs)
     [] p = "C05" -> C05(cfg, obs)
     [] p = "C07" -> C07(cfg, obs)
+    [] p = "C08" -> C08(cfg, obs)
+    [] p = "C09" -> C09(cfg, obs)
+    [] p = "C10" -> C10(cfg, obs)
+    [] p = "C11" -> C11(cfg, obs)
+    [] p = "C12" -> C12(cfg, obs)
     [] p = "C17" -> C17(cfg, obs)
     [] OTHER -> {}
 =============================================================================
